@@ -2611,10 +2611,11 @@ func TestVerif_C10_wire(t *testing.T) {
 	// retries switched ON while the call is in flight (a response middleware calls SetRetryCount
 	// on resp.Request) for a request whose body cannot be replayed: Do could not refuse it up
 	// front — there was nothing to retry then
-	for _, body := range []string{"rdata-from-a-reader", "file:r", "file:o", "bbytes"} {
+	// (also under a payload-forbidden method: the body is never sent, the request stays flagged)
+	for bi, body := range []string{"rdata-from-a-reader", "file:r", "file:o", "bbytes", "rdata-from-a-reader", "rdata-from-a-reader", "file:r"} {
 		for _, n0 := range []string{"", "n=0"} {
 			for _, e := range []string{"c2", "c-1", "c1@0"} {
-				tc := &c10Case{allowGet: true, method: "POST", url: "http://c10.test/up", body: "n", after: []string{"F~" + e},
+				tc := &c10Case{allowGet: bi != 5, method: []string{"POST", "POST", "POST", "POST", "OPTIONS", "GET", "HEAD"}[bi], url: "http://c10.test/up", body: "n", after: []string{"F~" + e},
 					script: []string{"t", "t", "s200", "c"}}
 				if n0 != "" {
 					tc.reqOps = []string{n0, "i=x0"}
@@ -2765,9 +2766,9 @@ func TestVerif_C10_wire(t *testing.T) {
 		if r.Intn(10) == 0 {
 			tc.after = []string{"F"}
 		}
-		// the body kind changed in flight, on random shapes (not where a marshalled / reader body or a
-		// payload-forbidden method decides what is sent: see the notes)
-		if payload := tc.method == "POST" || tc.method == "PUT" || tc.method == "PATCH"; payload && len(tc.hooks) == 0 && len(tc.resend) == 0 &&
+		// the body kind changed in flight, on random shapes (not where a marshalled / reader body
+		// decides what is sent: see the notes), payload-forbidden methods included
+		if len(tc.hooks) == 0 && len(tc.resend) == 0 &&
 			(tc.body[0] == 'n' || tc.body[0] == 'b' || tc.body[0] == 'u') && r.Intn(8) == 0 {
 			text := c10Text(c10Word(r, true))
 			kind := []string{"R", "F"}[r.Intn(2)]
